@@ -1,0 +1,15 @@
+// Copyright ©2024 The bíogo Authors. All rights reserved.
+// Use of this source code is governed by a BSD-style
+// license that can be found in the LICENSE file.
+
+//go:build verif
+
+package bam
+
+import "github.com/biogo/hts/internal"
+
+// VerifBinFor exposes internal.BinFor.
+func VerifBinFor(beg, end int) uint32 { return internal.BinFor(beg, end) }
+
+// VerifOverlappingBinsFor exposes internal.OverlappingBinsFor.
+func VerifOverlappingBinsFor(beg, end int) []uint32 { return internal.OverlappingBinsFor(beg, end) }
